@@ -14,9 +14,12 @@ def run(rep):
     control.parse_deductive(rep)
     # equal atom names are one atom object per engine: YP.atom against the atom table itself
     enginep.atom_table_deductive(rep)
+    enginep.file_loader_obligation(rep)       # a compiled script read back from a file is the text that was written (utf8)
     # the text that is lexed is the caller's bytes decoded as utf8, whichever entry point (string, file, command line) is used
     from . import compilerp
     compilerp.io_obligations(rep)
+    # ... and whichever debug options are on: debug text (which prints atoms unquoted, possibly with line breaks) stays inside comment lines
+    compilerp.debug_noninterference_obligations(rep)
     enginep.topython_deductive(rep)
     q = rep.tier == 'quick'
     fw.standin(rep, 's_c16.py', ['run', rep.seed, 1000 if q else 8000],
